@@ -489,6 +489,12 @@ pub fn check(a: &[String]) -> i32 {
     let known = load_known();
     let mut masked: HashSet<String> = HashSet::new();
     let mut known_reproduced: Vec<String> = Vec::new();
+    // open findings whose stored replay does not line up with this tree any more (its recorded
+    // choices are consumed by the library's own reads, writes and wake-ups, so an unrelated change
+    // there shifts them): the finding is then recognised by its class key, which names the exact
+    // clause and history shape, re-confirmed and re-minimised like any violation, and reported as
+    // KNOWN-FINDING with the fresh replay
+    let mut stale_known: BTreeMap<String, String> = BTreeMap::new();
     for k in known.iter().filter(|k| k.property == def.id && k.status == "open") {
         let Some(rp) = &k.replay else { continue };
         let path = vdir.join(rp);
@@ -502,7 +508,8 @@ pub fn check(a: &[String]) -> i32 {
             masked.insert(k.key.clone());
             known_reproduced.push(k.key.clone());
         } else {
-            println!("note: known finding '{}' no longer reproduces from {}; its key is not masked", k.key, rp);
+            println!("note: the stored replay {} of known finding '{}' does not reproduce on this tree; the finding is reported again only if the search meets its class", rp, k.key);
+            stale_known.insert(k.key.clone(), k.what.clone());
         }
     }
 
@@ -777,6 +784,11 @@ pub fn check(a: &[String]) -> i32 {
         min.save(&min_path);
         let _ = std::fs::remove_file(&raw_path);
         let sizes: Vec<usize> = min.tapes.iter().map(|t| t.iter().filter(|x| **x != 0).count()).collect();
+        if let Some(what) = stale_known.get(key) {
+            println!("KNOWN-FINDING: property={} {} [key {}; met again by the search in {} runs, fresh minimised replay {}]", def.id, what, key, found_counts[key], min_path.display());
+            known_reproduced.push(key.clone());
+            continue;
+        }
         println!("violation: {key}: {} ({} runs); {} replay has {:?} non-zero draws (plan/sched/io/select), was {:?}", min.detail, found_counts[key], if min.minimised { "minimised" } else { "un-minimised" }, sizes, rf.tapes.iter().map(|t| t.iter().filter(|x| **x != 0).count()).collect::<Vec<_>>());
         violation_lines.push(format!("VIOLATION property={} replay={}", def.id, min_path.display()));
     }
